@@ -119,7 +119,7 @@ def case_st(draw):
         p["form"] = form
         p["seq_as"] = draw(st.sampled_from(["list", "list", "tuple"]))      # a sequence of values (and masks) given as a list or as a tuple
         p["inplace"] = draw(st.booleans())
-    return {"op": op, "spec": spec, "ax": ax, "axis_form": draw(st.sampled_from(["name", "pos"])), "p": p}
+    return {"op": op, "spec": spec, "ax": ax, "axis_form": draw(st.sampled_from(["name", "pos", "neg"])), "p": p}
 
 
 def enumerate_cases(tier):
@@ -141,7 +141,7 @@ def enumerate_cases(tier):
                 labels = [list(range(n))[::-1] for n in arr.shape]
                 flat = ["NaN" if np.isnan(x) else float(x) for x in arr.ravel().tolist()]
                 yield "dropna-threshold-grid", {"op": "dropna", "spec": {"dims": dims, "labels": labels, "vk": "f", "vals": flat}, "ax": dims.index("t"),
-                                                "axis_form": "name", "p": {}}
+                                                "axis_form": "name" if m % 2 else "neg", "p": {}}
     # dropna along an INTERIOR dimension of 3- and 4-dimensional arrays (the other dimensions before and after it are longer than 1)
     for sh, ax in (((2, 3, 2), 1), ((3, 4, 2), 1), ((2, 3, 2, 2), 1), ((2, 2, 3, 2), 2), ((2, 2, 2, 3), 2)):
         for pat in range(4):
@@ -158,7 +158,7 @@ def enumerate_cases(tier):
                         vals[c_] = "NaN"
             dims = ["x", "t", "y", "z"][:len(sh)] if ax == 1 else ["x", "y", "t", "z"][:len(sh)]
             labels = [list(range(n_))[::-1] for n_ in sh]
-            yield "dropna-interior-axis", {"op": "dropna", "spec": {"dims": dims, "labels": labels, "vk": "f", "vals": vals}, "ax": ax, "axis_form": "name", "p": {}}
+            yield "dropna-interior-axis", {"op": "dropna", "spec": {"dims": dims, "labels": labels, "vk": "f", "vals": vals}, "ax": ax, "axis_form": "name" if pat % 2 else "neg", "p": {}}
     for x in _range_perm_cases():
         yield x
 
@@ -228,7 +228,7 @@ def run_case(case):
     vals = core.spec_values(spec)
     labs = labels[ax]
     n = len(labs)
-    axis = dims[ax] if case["axis_form"] == "name" else ax
+    axis = dims[ax] if case["axis_form"] == "name" else (ax if case["axis_form"] == "pos" else ax - nd)      # (negative positions count from the end)
     sig = {"op": op}
     what = "%s %s axis=%r dims=%s labels=%s vals=%s" % (op, core.jsonable(p), axis, dims, labels, spec["vals"])
     cl = set()
